@@ -13,8 +13,10 @@ from yaql.language import utils as yutils
 RULE = ('(1) JSON-like documents of depth <=4 with tuples, sets, frozensets '
         'and generators substituted, expression $, through evaluate() with '
         'and without a context, with input conversion off, through '
-        'yaql.eval, and through yaql.eval while a generator of the document '
-        'itself calls yaql.eval; (2) expressions nesting '
+        'yaql.eval, through yaql.eval while a generator of the document '
+        'itself calls yaql.eval, and bound by create_context(data=...) under '
+        'a context that already sees another document; the smallest '
+        'documents (null, false, 0, empty) by every way; (2) expressions nesting '
         'every kind of lazy/frozen value the library returns (dict views, '
         'ordering objects, where/select/zip/enumerate iterators, sets, '
         'frozen dicts, tuples, groupBy, memorize, regex results) as list '
@@ -235,6 +237,15 @@ def _roundtrip(spec, t2l, s2l, how):
         return eng('$').evaluate(data=build(spec), context=common.child())
     if how == 'no-context':
         return _engine(t2l, s2l)('$').evaluate(data=build(spec))
+    if how == 'create_context':
+        # the document is bound by yaql.create_context(data=...), in a
+        # context that can already see another document as `$`
+        from yaql.language import contexts as _contexts
+        outer = _contexts.Context()
+        outer['$'] = 'the previous document'
+        inner = _yaql.create_context(
+            data=build(spec), context=outer.create_child_context())
+        return _engine(t2l, s2l)('$').evaluate(context=inner)
     if how == 'yaql.eval':
         return _yaql.eval('$', build(spec))
     if how == 'yaql.eval-reentrant':
@@ -668,7 +679,8 @@ def _shard(run, which, n, shard):
                           st.sampled_from(OPTS),
                           st.sampled_from(['evaluate', 'evaluate', 'raw-input',
                                            'no-context', 'yaql.eval',
-                                           'yaql.eval-reentrant']))
+                                           'yaql.eval-reentrant',
+                                           'create_context']))
         run.hyp('roundtrip', cases, lambda c: check_roundtrip(run, c), n,
                 shard=shard)
     else:
@@ -694,6 +706,13 @@ def run(run):
         for o in OPTS:
             check_interface_fn(run, {'kind': 'interface-fn', 'index': i,
                                      'opts': list(o)})
+    # the smallest documents (null, false, zero, empty) by every way
+    for how in ('evaluate', 'raw-input', 'no-context', 'yaql.eval',
+                'yaql.eval-reentrant', 'create_context'):
+        for spec in (None, False, 0, '', [], {}, [None], {'a': None}):
+            for o in OPTS:
+                check_roundtrip(run, {'kind': 'roundtrip', 'doc': spec,
+                                      'opts': list(o), 'how': how})
     run.shards(_grid_shard, [(i, 16) for i in range(16)])
     run.extra['exhaustive_subspace'] = (
         'all %d atoms x %d single wrappers x 4 option pairs' % (
